@@ -232,7 +232,9 @@ def replay_kernel_args():
     disp = [np.atleast_1d(v[1]) for v in mesh[2:2 + n]]
     wts = [np.atleast_1d(v[2]) for v in mesh[2:2 + n]]
     NW = sum(len(d) for d in disp)
-    want = np.hstack([[v[0] for v in mesh[:2 + n]]] + disp + wts)
+    # scalar block: ALL call parameters (scale, background, the n kernel parameters and the magnetic slots),
+    # then the dispersity values and weights of the n kernel parameters
+    want = np.hstack([[v[0] for v in mesh[:m.info.parameters.nvalues]]] + disp + wts)
     got = np.asarray(data)
     bad = len(got) % 32 != 0 or not np.allclose(got[:len(want)], want) or np.any(got[len(want):] != 0) \
         or int(cd.num_weights) != NW
